@@ -23,7 +23,7 @@ import ast
 from fractions import Fraction as F
 
 from ..loader import AnalysisError
-from ..pe import PE, Mock, Obj, PyRaise, Tensor, Fork, Func
+from ..pe import show_term, PE, Mock, Obj, PyRaise, Tensor, Fork, Func
 from ..qir import Fwd, mk_app
 from ..nf import NF, show
 from .c11 import qm, find_apps, leaves_with_parent
@@ -295,9 +295,22 @@ def rule_unfold(rep, repo):
         "name": name, "input_shape": (None, 8, 8, 3),
         "get_config": lambda pe, a, k: {},
         "get_weights": lambda pe, a, k: ["W_" + name],
+        # the replacement layer carries the same quantizers and applies them
+        # in its own call(): the transferred weights must be the unquantized
+        # folded ones
+        "get_quantizers": lambda pe, a, k: [qstub("k_" + name),
+                                            qstub("b_" + name)],
+        "quantizers": [qstub("k_" + name), qstub("b_" + name)],
+        "kernel_quantizer_internal": qstub("k_" + name),
+        "depthwise_quantizer_internal": qstub("k_" + name),
+        "bias_quantizer_internal": qstub("b_" + name),
         "get_folded_weights": lambda pe, a, k: [
             Tensor(("sym", "FK_" + name), None),
             Tensor(("sym", "FB_" + name), None)]})
+
+  def qstub(tag):
+    return Mock("q_" + tag, {"__call__": lambda pe, a, k: Tensor(
+        ("app", "Q_" + tag, (), (pe.as_term(a[0]),)), None)})
 
   def new_layer(cls, name):
     return Mock("new_" + name, {
@@ -326,7 +339,8 @@ def rule_unfold(rep, repo):
   try:
     pe.call(pe.lookup_global("unfold_model", bm), [model], {})
     def nm(v):
-      return [x.term[1] if isinstance(x, Tensor) else x for x in v]
+      return [(x.term[1] if x.term[0] == "sym" else show_term(x.term))
+              if isinstance(x, Tensor) else x for x in v]
     rep.check(nm(sets.get("a", [])) == ["FK_a", "FB_a"] and
               nm(sets.get("b", [])) == ["FK_b", "FB_b"] and
               sets.get("c") == ["W_c"], "R4", unit, "unfolded-weights",
